@@ -662,36 +662,36 @@ var c15Weights = baseWeights.with(Weights{"gas": 0, "epoch": 0})
 func TestC15(t *testing.T) {
 	runHistories(t, historyCfg{prop: "C15", weights: c15Weights, minSteps: 100, maxSteps: 300,
 		before: func(t *testing.T, st *Stats) { c15Enumerate(t, st, EnvInt("VERIF_C15_DEPTH", 3)) }, nontrivial: func(rec *CallRecord, g *Gen) (string, bool) {
-		if !rec.Res.OK() || len(rec.Res.Diff) == 0 {
-			return "", false
-		}
-		var parts []string
-		for _, d := range rec.Res.Diff {
-			if !strings.HasPrefix(d.Key, vmcommon.ElrondProtectedKeyPrefix) {
-				continue
+			if !rec.Res.OK() || len(rec.Res.Diff) == 0 {
+				return "", false
 			}
-			kind := "balance"
-			if strings.HasPrefix(d.Key, pfxRole) {
-				kind = "roles"
-			} else if strings.HasPrefix(d.Key, pfxNonce) {
-				kind = "counter"
-			} else if bytes.Equal([]byte(d.Account), vmcommon.SystemAccountAddress) {
-				kind = "pause"
+			var parts []string
+			for _, d := range rec.Res.Diff {
+				if !strings.HasPrefix(d.Key, vmcommon.ElrondProtectedKeyPrefix) {
+					continue
+				}
+				kind := "balance"
+				if strings.HasPrefix(d.Key, pfxRole) {
+					kind = "roles"
+				} else if strings.HasPrefix(d.Key, pfxNonce) {
+					kind = "counter"
+				} else if bytes.Equal([]byte(d.Account), vmcommon.SystemAccountAddress) {
+					kind = "pause"
+				}
+				tr := "rewritten"
+				if len(d.Old) == 0 {
+					tr = "added"
+				} else if len(d.New) == 0 {
+					tr = "removed"
+				}
+				parts = append(parts, kind+":"+tr)
 			}
-			tr := "rewritten"
-			if len(d.Old) == 0 {
-				tr = "added"
-			} else if len(d.New) == 0 {
-				tr = "removed"
+			if len(parts) == 0 {
+				return "", false
 			}
-			parts = append(parts, kind+":"+tr)
-		}
-		if len(parts) == 0 {
-			return "", false
-		}
-		sort.Strings(parts)
-		return sprintf("entry-change|%s|%s|%s", rec.Call.Fn, rec.V.Side, strings.Join(parts, "+")), true
-	}})
+			sort.Strings(parts)
+			return sprintf("entry-change|%s|%s|%s", rec.Call.Fn, rec.V.Side, strings.Join(parts, "+")), true
+		}})
 }
 
 // ---------------------------------------------------------------- C16
